@@ -166,6 +166,41 @@ for first, last in [(1, 127), (1, 128), (-2, 127), (-2, 128), (-2, 129), (-128, 
                     lambda first=first, last=last, clo=clo, chi=chi, flavour=flavour: numbering_case(first, last, clo, chi, flavour))
 
 
+def nan_case(n, nan_at, flavour):
+    """B-factors / occupancies that are not available (NaN, what biotite itself assigns when a file lacks the column)
+    come back as NaN - also after compression - and the other values unchanged"""
+    a = struc.AtomArray(n)
+    a.chain_id[:] = "A"
+    a.res_id[:] = np.arange(1, n + 1)
+    a.res_name[:] = "GLY"
+    a.atom_name[:] = "CA"
+    a.element[:] = "C"
+    a.coord = (np.arange(n * 3, dtype=np.float32).reshape(n, 3) * 0.25)
+    b = np.round(np.linspace(5, 60, n), 2)
+    o = np.ones(n)
+    for k in nan_at:
+        b[k % n] = np.nan
+        o[(k + 1) % n] = np.nan
+    a.set_annotation("b_factor", b)
+    a.set_annotation("occupancy", o)
+    back, g = cycle(a, flavour, ("b_factor", "occupancy"))
+    for cat, ref in (("b_factor", b), ("occupancy", o)):
+        got = back.get_annotation(cat)
+        if not np.array_equal(np.isnan(got), np.isnan(ref)) or not np.allclose(got[~np.isnan(ref)], ref[~np.isnan(ref)], atol=1e-3):
+            bad = [int(i) for i in np.where(~np.isclose(got, ref, atol=1e-3, equal_nan=True))[0][:4]]
+            return f"{cat}: differs at atoms {bad}: wrote {ref[bad].tolist()}, read {got[bad].tolist()}"
+    if not np.allclose(back.coord, a.coord, atol=1e-3):
+        return "coordinates differ"
+    return None
+
+
+for n in (3, 40, 200):
+    for nan_at in ((0,), (5, 17), tuple(range(0, 40, 3))):
+        for flavour in ("cif", "bcif", "bcif-compressed"):
+            R.check("write-read cycle returns an equal structure", f"{flavour} unavailable (NaN) B-factors / occupancies",
+                    {"atoms": n, "nan_at": list(nan_at), "flavour": flavour}, lambda n=n, nan_at=nan_at, flavour=flavour: nan_case(n, nan_at, flavour))
+
+
 def snapshot_case(cfg, flavour):
     """set_structure() takes a snapshot: changing the caller's arrays in place afterwards must not change the file"""
     a = build(*cfg)
